@@ -68,6 +68,11 @@ def make_mask(d):
     else:
         need = 0.45 * max(shape)
     radius = need + max(d["max_shifts"]) + d["mask_r"]
+    if d["tclass"] == "A":
+        # ... also for a diagonal displacement (|d| up to sqrt(3) max_shifts): the displaced copy itself, out to 2 sigma
+        disp = d["d"]
+        radius = max(radius, max(math.sqrt(sum((c + dd - c0) ** 2 for c, dd, c0 in zip(b["c"], disp, ctr))) + 2.0 * b["s"]
+                                 for b in d["blobs"]) + d["mask_r"])
     if d["mask"] == "binary":
         return (r <= radius).astype(np.float32)
     soft = 1.0 / (1.0 + np.exp((r - radius) / 0.6))
@@ -123,7 +128,7 @@ def judge(d):
     if not err <= tol + 1e-6:
         frac = bool(np.any(np.abs(disp - np.round(disp)) > 1e-9))
         sig = f"C04/shift-error:{d['model']}"
-        if d["model"] == "FSC" and d["tilt"] is not None and err <= 0.75:
+        if d["model"] == "FSC" and d["tilt"] is not None and err <= 1.0:  # within one sampling step of the integer landscape
             sig = "C04/fsc-tilt-bias"                     # known finding
         if d["model"] == "FSC" and d["tilt"] is None and frac and err <= 0.6:
             sig = "C04/fsc-fractional-bias"               # known finding
